@@ -51,6 +51,7 @@ type script struct {
 	threads [][]call
 	pub     bool // root has a recording publish function (a republisher thread exists)
 	chunk4  bool // 4-byte chunker: the file consists of two leaf blocks under a root node
+	sub     bool // /d holds a cached sub-directory /d/sub instead of the file (directory metadata scenarios; no file, no final read-back)
 	shared  bool // one read-write descriptor is opened during setup and used by all threads (swrite/sflush/sclose), closed in the final phase
 	tree    bool // initial content written through a descriptor (DagModifier decides the shape) instead of PutNode of a single inline-data node
 	delta   int  // BoundDelta (quick and thorough)
@@ -100,6 +101,7 @@ type exec struct {
 	rt       *mfs.Root
 	d        *mfs.Directory
 	fi       *mfs.File
+	subd     *mfs.Directory
 	sfd      mfs.FileDescriptor
 	pubs     []cid.Cid
 	setupErr string
@@ -144,6 +146,22 @@ func (x *exec) setup() error {
 	x.rt = rt
 	if err := mfs.Mkdir(rt, "/d", mfs.MkdirOpts{}); err != nil {
 		return err
+	}
+	if x.sc.sub {
+		if err := mfs.Mkdir(rt, "/d/sub", mfs.MkdirOpts{}); err != nil {
+			return err
+		}
+		dn, err := mfs.Lookup(rt, "/d")
+		if err != nil {
+			return err
+		}
+		x.d = dn.(*mfs.Directory)
+		sn, err := mfs.Lookup(rt, "/d/sub")
+		if err != nil {
+			return err
+		}
+		x.subd = sn.(*mfs.Directory)
+		return nil
 	}
 	viaFd := x.sc.tree || x.sc.chunk4
 	first := dag.NodeWithData(ft.FilePBData([]byte(initial), uint64(len(initial))))
@@ -219,6 +237,13 @@ func (x *exec) Main() {
 		vsched.Recv((<-chan struct{})(done[t]))
 	}
 	// final phase: every driver thread has finished
+	if x.sc.sub {
+		// no file in these scenarios: a root flush walks / -> /d -> /d/sub and shows a leaked directory lock as a deadlock
+		x.rec(ev{kind: "start", thr: -1, idx: 0, op: "final-rootflush"})
+		err := x.rt.Flush()
+		x.rec(ev{kind: "ret", thr: -1, idx: 0, op: "final-rootflush", err: errStr(err)})
+		return
+	}
 	if x.sfd != nil {
 		x.rec(ev{kind: "start", thr: -1, idx: 2, op: "sclose"})
 		err := x.sfd.Close()
@@ -436,6 +461,14 @@ func (x *exec) do(t, i int, cl call) {
 		err = x.rt.Flush()
 	case "dflush":
 		err = x.d.Flush()
+	case "schmod":
+		err = mfs.Chmod(x.rt, "/d/sub", cl.mode)
+	case "stouch":
+		err = mfs.Touch(x.rt, "/d/sub", mtimes[cl.ts])
+	case "ssetmode":
+		err = x.subd.SetMode(cl.mode)
+	case "ssetmtime":
+		err = x.subd.SetModTime(mtimes[cl.ts])
 	case "dgetnode":
 		_, err = x.d.GetNode()
 	case "dlist":
@@ -454,7 +487,7 @@ func (x *exec) do(t, i int, cl call) {
 	case "flushpath":
 		var nd ipld.Node
 		nd, err = mfs.FlushPath(x.ctx, x.rt, cl.path)
-		if err == nil {
+		if err == nil && !x.sc.sub {
 			switch cl.path {
 			case "/":
 				r.data, err = x.dagFile(nd, "d", "f")
@@ -611,6 +644,9 @@ func (x *exec) overlapping(thr, a, b int) string {
 func (x *exec) Check(res *vsched.Result) *eng.Violation {
 	if x.setupErr != "" {
 		return eng.V("setup-error", "setup", x.setupErr)
+	}
+	if x.sc.sub {
+		return nil // no file in the sub-directory scenarios: only the scheduler verdict (deadlock) is judged
 	}
 	ws := x.writes()
 	logStr := x.logString()
@@ -808,6 +844,14 @@ func scripts() []*script {
 		{name: "s9-touch-flushpath-dir", small: true, threads: [][]call{{ct("touch", 0)}, {cp("flushpath", "/d")}}},
 		{name: "s9-setmode-rootflush", small: true, threads: [][]call{{cm("setmode", 0o644)}, {c("rootflush")}}},
 		{name: "s9-chmod-list-dflush", threads: [][]call{{cm("chmod", 0o644), ct("touch", 1)}, {c("list")}, {c("dflush")}}},
+		// S10: metadata update of a cached sub-directory /d/sub || node / flush / listing of its parent /d (child directory lock vs parent directory lock)
+		{name: "s10-ssetmode-dgetnode", sub: true, small: true, threads: [][]call{{cm("ssetmode", 0o750)}, {c("dgetnode")}}},
+		{name: "s10-ssetmtime-dflush", sub: true, small: true, threads: [][]call{{ct("ssetmtime", 1)}, {c("dflush")}}},
+		{name: "s10-schmod-foreachentry", sub: true, small: true, threads: [][]call{{cm("schmod", 0o750)}, {c("list")}}},
+		{name: "s10-stouch-dlist", sub: true, small: true, threads: [][]call{{ct("stouch", 1)}, {c("dlist")}}},
+		{name: "s10-schmod-flushpath-dir", sub: true, small: true, threads: [][]call{{cm("schmod", 0o750)}, {cp("flushpath", "/d")}}},
+		{name: "s10-stouch-rootflush", sub: true, small: true, threads: [][]call{{ct("stouch", 0)}, {c("rootflush")}}},
+		{name: "s10-schmod-stouch-dgetnode", sub: true, threads: [][]call{{cm("schmod", 0o750)}, {ct("stouch", 1)}, {c("dgetnode")}}},
 		// S7: metadata update || data write on the same file (setNodeData builds the new node from a stale one)
 		{name: "s7-setmode-write", small: true, threads: [][]call{{cm("setmode", 0o644)}, {w("write", 0)}}},
 		{name: "s7-setmode-write-tree", small: true, tree: true, threads: [][]call{{cm("setmode", 0o644)}, {w("write", 0)}}},
